@@ -37,6 +37,24 @@ pub struct CalcHistory {
     /// (language, text) evaluated on the long-lived calculator before the probe
     pub history: Vec<(String, String)>,
     pub probe: (String, String),
+    /// configurations the long-lived calculator is switched to (through the public setters) before history text i;
+    /// it is switched back to `cfg` before the probe
+    #[serde(default)]
+    pub reconf: Vec<(u8, u8)>,
+}
+
+/// configurations visited in between (all reachable through the setters, zones valid)
+pub fn reconf_panel() -> Vec<Cfg> {
+    vec![
+        Cfg::seps(".", ","),
+        Cfg::seps(".", ""),
+        Cfg::seps(",", ""),
+        Cfg::default().with_tz("EST"),
+        Cfg::default().with_tz("GMT+5:30"),
+        Cfg { num: Some((4, false, true)), pct: Some((0, true, false)), ..Cfg::default() },
+        Cfg { money: Some((true, false)), num: Some((0, true, true)), ..Cfg::seps(".", ",") },
+        Cfg { tz: Some("NPT".into()), num: Some((9, false, false)), ..Cfg::seps(",", "") },
+    ]
 }
 
 pub struct Purity(pub &'static str);
@@ -52,10 +70,16 @@ impl Prop for Purity {
     fn check(&self, w: &mut Worker, c: &CalcHistory) -> Verdict {
         let rendered = format!("[{}] history of {} texts, then probe [{}] {:?}", c.cfg.label(), c.history.len(), c.probe.0, c.probe.1);
         let today0 = chrono::Utc::now().date_naive();
-        let long_lived = build_calc(&c.cfg);
+        let mut long_lived = build_calc(&c.cfg);
         let mut acc = Acc::new();
         let mut failing_lines = 0;
-        for (lang, text) in &c.history {
+        let panel = reconf_panel();
+        let mut reconfigured = false;
+        for (k, (lang, text)) in c.history.iter().enumerate() {
+            if let Some((_, pick)) = c.reconf.iter().find(|(at, _)| *at as usize == k) {
+                crate::common::apply_cfg(&mut long_lived, &panel[*pick as usize % panel.len()]);
+                reconfigured = true;
+            }
             w.count_eval(1);
             match eval_on(&long_lived, lang, text) {
                 Ok(o) => failing_lines += o.slots.iter().filter(|s| matches!(s, Slot::Err(_))).count(),
@@ -64,6 +88,10 @@ impl Prop for Purity {
                     return acc.finish(rendered);
                 }
             }
+        }
+        if reconfigured {
+            // back to the configuration of the probe, through the same public setters
+            crate::common::apply_cfg(&mut long_lived, &c.cfg);
         }
         w.count_eval(2);
         let a = eval_on(&long_lived, &c.probe.0, &c.probe.1);
@@ -91,7 +119,7 @@ impl Prop for Purity {
             }
         }
         let related = self.0 == "related-history";
-        acc.finish(rendered).nt(c.history.len() >= 3 && probe_ok).class_if(related, "history-made-of-variants-of-the-probe").class_if(related && c.history.iter().any(|(_, t)| t.split(|ch: char| !ch.is_ascii_digit() && ch != ',' && ch != '.').any(|w| w == "0")), "variant-with-a-zero-operand").class_if(failing_lines > 0, "history-contains-failing-lines").class_if(c.history.len() >= 10, "history>=10").class_if(c.cfg != Cfg::default(), "non-default-config").class_if(c.probe.1.contains('='), "probe-has-assignment")
+        acc.finish(rendered).nt(c.history.len() >= 3 && probe_ok).class_if(related, "history-made-of-variants-of-the-probe").class_if(reconfigured, "reconfigured-through-the-setters-in-between").class_if(related && c.history.iter().any(|(_, t)| t.split(|ch: char| !ch.is_ascii_digit() && ch != ',' && ch != '.').any(|w| w == "0")), "variant-with-a-zero-operand").class_if(failing_lines > 0, "history-contains-failing-lines").class_if(c.history.len() >= 10, "history>=10").class_if(c.cfg != Cfg::default(), "non-default-config").class_if(c.probe.1.contains('='), "probe-has-assignment")
     }
 }
 
@@ -111,7 +139,7 @@ fn text_strategy() -> impl Strategy<Value = (String, String)> {
 
 pub fn calc_history_strategy(max: usize) -> impl Strategy<Value = CalcHistory> {
     let cfg = prop_oneof![4 => Just(Cfg::default()), 2 => prop::sample::select(vec![Cfg::seps(".", ","), Cfg::seps(".", ""), Cfg::default().with_tz("EST"), Cfg { num: Some((4, false, true)), ..Cfg::default() }])];
-    (cfg, prop::collection::vec(text_strategy(), 1..max), text_strategy()).prop_map(|(cfg, history, probe)| CalcHistory { cfg, history, probe })
+    (cfg, prop::collection::vec(text_strategy(), 1..max), text_strategy(), prop::collection::vec((0u8..12, 0u8..8), 0..3)).prop_map(|(cfg, history, probe, reconf)| CalcHistory { cfg, history, probe, reconf })
 }
 
 /// values that replace the numeric literals of the probe in the history texts
@@ -152,7 +180,7 @@ pub fn related_history_strategy(max: usize) -> impl Strategy<Value = CalcHistory
         }
         let mut cfg = cfg;
         cfg.tz = g.tz.clone();
-        CalcHistory { cfg, history, probe: (g.lang.clone(), g.text(&dec, &thou)) }
+        CalcHistory { cfg, history, probe: (g.lang.clone(), g.text(&dec, &thou)), reconf: vec![] }
     })
 }
 
@@ -358,7 +386,7 @@ pub fn regressions() -> Vec<SessionHistory> {
 }
 
 pub fn run(ctx: &Ctx) {
-    ctx.rule("(a) calculator histories: a freshly built long-lived calculator evaluates 1-30 texts drawn from all other generators plus token soup (failing and rule-heavy lines included), then a probe text; (a') related histories: the texts before the probe are variants of the probe itself - same sentence, units, currencies, zones and names, operands replaced by 0, 1, 2, 0.5, 12, 31, 60, 100, 1000, 1e9 - mixed with unrelated texts; oracle: status, every slot (None / error text / output / AST value) and the highlight tokens of the probe equal those on a fresh calculator of the same configuration that evaluates only the probe; (b) session histories over 1-3 sessions sharing one calculator: set_text(text of 1-5 lines incl. empty lines, assignments, CRLF; about one op in six sets the session's previous text again, unchanged or with a trailing blank / line separator) + execute_session; oracle: status true, slot count = line count of the text just set, slots = the last |T| slots of a one-shot execute of the concatenation of all texts that session has executed (fresh calculator, fresh session), and also of that concatenation WITHOUT the lines that failed to evaluate (a failed line leaves no trace; failed first-time assignments are kept); non-trivial = (a) history >= 3 texts and the probe yields a value, (b) texts of different line counts on one session and a variable from an earlier text used in a later one");
+    ctx.rule("(a) calculator histories: a freshly built long-lived calculator evaluates 1-30 texts drawn from all other generators plus token soup (failing and rule-heavy lines included), then a probe text; in half of the histories the calculator is switched to other configurations through the public setters in between and back before the probe; (a') related histories: the texts before the probe are variants of the probe itself - same sentence, units, currencies, zones and names, operands replaced by 0, 1, 2, 0.5, 12, 31, 60, 100, 1000, 1e9 - mixed with unrelated texts; oracle: status, every slot (None / error text / output / AST value) and the highlight tokens of the probe equal those on a fresh calculator of the same configuration that evaluates only the probe; (b) session histories over 1-3 sessions sharing one calculator: set_text(text of 1-5 lines incl. empty lines, assignments, CRLF; about one op in six sets the session's previous text again, unchanged or with a trailing blank / line separator) + execute_session; oracle: status true, slot count = line count of the text just set, slots = the last |T| slots of a one-shot execute of the concatenation of all texts that session has executed (fresh calculator, fresh session), and also of that concatenation WITHOUT the lines that failed to evaluate (a failed line leaves no trace; failed first-time assignments are kept); non-trivial = (a) history >= 3 texts and the probe yields a value, (b) texts of different line counts on one session and a variable from an earlier text used in a later one");
     ctx.assume("lines mentioning now are not generated; execute_session without a preceding set_text is exercised only at the end of a session's life (no assertion beyond not panicking)");
     ctx.run_table(&Sessions, "regressions", regressions(), false);
     let (h, s) = match ctx.tier {
